@@ -60,7 +60,9 @@ fn replay(path: &str, opts: &Opts) {
     let mut rep = Report::new("replay", "");
     let mut proto = vec![];
     let mut outs = vec![];
-    if lines.iter().any(|l| l.starts_with("wa seed=")) {
+    if lines.iter().any(|l| l.starts_with("ccfg")) {
+        fam::concurrent::replay(&lines);
+    } else if lines.iter().any(|l| l.starts_with("wa seed=")) {
         fam::webanno::replay(&lines);
     } else if lines.iter().any(|l| l.starts_with("tpcfg")) {
         // C16: the scenario is rebuilt from its description
